@@ -6,6 +6,9 @@ import (
 	"fmt"
 	"go/ast"
 	"go/constant"
+	"go/token"
+	"math"
+	"strconv"
 	"go/types"
 	"sort"
 	"strings"
@@ -16,6 +19,7 @@ import (
 type Fact struct {
 	Text string // full (assert ...) line(s)
 	Tag  string // "" = always included; otherwise filterable: inv:<loop>:<label>:<stage>, post:<callee>:<label>
+	Def  string // the symbol this fact is "about" (slicing): the fact is kept iff that symbol is relevant
 }
 
 type Obl struct {
@@ -31,6 +35,10 @@ type Obl struct {
 	Loop   int
 	Text   string // source text of the clause
 	Expect string // "" normal
+	Window int    // >0: control-flow facts only for blocks within this many CFG levels before the site (sound: drops hypotheses)
+	Since  string // control-flow facts only for blocks at or after the source line containing this text
+	blk    *ssa.BasicBlock
+	fr     *frame
 }
 
 func (o *Obl) Name() string {
@@ -792,6 +800,13 @@ func (fc *FnCtx) constTerm(c *ssa.Const) string {
 }
 
 func realLit(v constant.Value) string {
+	// floating point is treated as mathematical reals: a float64 constant denotes its shortest round-trip decimal
+	// (0.002 means 1/500, not the nearest binary fraction)
+	if f, _ := constant.Float64Val(v); !math.IsInf(f, 0) && !math.IsNaN(f) {
+		if dv := constant.MakeFromLiteral(strconv.FormatFloat(f, 'g', -1, 64), token.FLOAT, 0); dv.Kind() != constant.Unknown {
+			v = dv
+		}
+	}
 	n, d := constant.Num(v), constant.Denom(v)
 	ns, ds := n.ExactString(), d.ExactString()
 	neg := strings.HasPrefix(ns, "-")
